@@ -68,12 +68,14 @@ def run(chk, repo):
     chk.ob('C18.b', 'mergeFasta adds every peptide of every further file with skip_checking=True', mf.where, ok,
            'mergeFasta filters or skips peptides while merging', key=mf.qual + '::add', fn=mf.qual)
     ap = repo.func('aa.VariantPeptidePool:VariantPeptidePool.add_peptide')
-    acfg = CFG(ap.node)
     chk.uses(ap)
-    g = [n for n in acfg.nodes if n.kind == 'test' and unparse(n.ast) == 'not skip_checking']
-    rets = [n.id for n in acfg.nodes if n.kind == 'stmt' and isinstance(n.ast, ast.Return) and unparse(n.ast.value) == 'False']
-    ok = len(g) == 1 and all(acfg.edge_dominates(g[0].id, 'T', r) for r in rets) and len(rets) >= 1
-    chk.ob('C18.b', 'with skip_checking the pool cannot reject (every `return False` is under `not skip_checking`)', ap.where, ok,
+    from sa import sem
+    nap = sem.nf(repo, ap)
+    rej = sem.facts_where(nap, lambda st: isinstance(st, ast.Return) and isinstance(st.value, ast.Constant) and not st.value.value, {'skip_checking': True})
+    reachable = [st for st, fx in rej if fx is not None]
+    anyrej = [st for st in ast.walk(nap) if isinstance(st, ast.Return) and isinstance(st.value, ast.Constant) and st.value.value is False]
+    chk.ob('C18.b', 'with skip_checking the pool cannot reject (no `return False` is reachable when skip_checking is true)', ap.where,
+           not reachable and len(anyrej) >= 1,
            'add_peptide can reject a peptide although skip_checking is set', key=ap.qual + '::skip-no-reject', fn=ap.qual)
     first = [n for n in walk_no_nested(mf.node) if isinstance(n, ast.Assign) and unparse(n.targets[0]) == 'pool' and 'VariantPeptidePool.load' in unparse(n.value)]
     chk.ob('C18.b', 'the first file seeds the pool unfiltered', mf.where, len(first) == 1, 'first file not loaded as the pool', key=mf.qual + '::first', fn=mf.qual)
